@@ -68,7 +68,12 @@ Section Nx.
              (filter (fun '(n, _) => negb (memb n ns)) (g_adj g))).
 
   (* G.edge_subgraph(edges): a view whose nodes are the endpoints of [es] that are nodes of G
-     (in G's node order) and whose edges are the edges of G listed in [es]. *)
+     and whose edges are the edges of G listed in [es].  The successor order of every node is
+     the original adjacency order (FilterAdjacency.__getitem__ filters the original dict).
+     NOT modelled: the iteration order of the view's NODE set, which networkx takes from the hash
+     order of the induced node set when that set is less than half of G (FilterAtlas.__iter__);
+     visions never depends on it (root and export use the full graph / sort), and the
+     correspondence compares the view's nodes as a set. *)
   Definition g_edge_subgraph (g : digraph) (es : list (N * N)) : digraph :=
     let listed u v := existsb (fun '(a, b) => andb (eqb a u) (eqb b v)) es in
     let endpoint n := existsb (fun '(a, b) => orb (eqb a n) (eqb b n)) es in
